@@ -11,13 +11,17 @@
     For 1230 ([C16_roundtrip_1230], Proofs/Bias1230.v): whatever list with pairwise distinct signals the
     encoder accepts decodes to the same entries, each once, in mask order (L1 C/A, L1 P, L2 C/A, L2 P),
     signal unchanged, bias on its 0.02 m grid (saturating at the 16-bit field); all its signals are among
-    the four.  Not proved: the frame wrapper around the three lists (covered for the plain layouts by
-    C01_build_decodes; here by the ROUNDTRIP correspondence and the impl-side probes). *)
+    the four.  [C16_frame_1059/1065/1230] (Proofs/Ext2Special.v, Proofs/RoundTripAll.v) lift the three
+    theorems to the public API: the frame build_message returns for such a message, from any builder history,
+    is accepted by MessageFrame::new, carries the number, and get_message returns the typed message whose bias
+    list is the one the layout-level theorem describes (never Corrupt). *)
 From Coq Require Import ZArith List Lia Bool.
 From RtcmModel Require Import Types BitIO SigId Bias Layout Top.
 From RtcmGen Require Import GenSignals GenLayouts.
 From Coq Require Import Sorting.Permutation Sorting.Sorted.
-From RtcmProofs Require Import ListZ SigProofs BiasProofs BitProofs BiasRoundTrip Bias1230.
+From RtcmModel Require Import Frame Message.
+From RtcmGen Require Import GenMessages.
+From RtcmProofs Require Import ListZ SigProofs BiasProofs BitProofs BiasRoundTrip Bias1230 DecodeTotal BuilderProofs SizeProofs BuildProofs RoundTrip RoundTripFrame EncodeTotalAll EncodeFrameAll Ext2Special RoundTripAll.
 Import ListNotations.
 Open Scope Z_scope.
 
@@ -101,6 +105,89 @@ Check C16_roundtrip_1230 : forall d o l es d' o', bytes_ok d = true -> 0 <= o ->
     (forall e, In e es -> 0 <= idx1230 e <= 3) /\
     t_decode_frag FBias1230 d' o = Ok (VList (map norm1230 sorted), o').
 
+(** ---------- at the public API ---------- *)
+Lemma caps_nonneg16 : 0 <= SAT_CAP_1059 /\ 0 <= SAT_CAP_1065.
+Proof. split; vm_compute; discriminate. Qed.
+Lemma layouts_fit16 : forallb (fun m => frag_wfb (snd m) && (12 + max_bits SAT_CAP_1059 SAT_CAP_1065 (snd m) <=? 8184)) messages = true.
+Proof. vm_compute. reflexivity. Qed.
+Lemma numbers_fit16 : forallb (fun m => (0 <=? fst m) && (fst m <? 4096)) messages = true.
+Proof. vm_compute. reflexivity. Qed.
+
+(** the side condition on an accepted 1059 / 1065 list, and what comes back *)
+Definition cb_pre (table : sigtable) (v : val) : Prop :=
+  exists l es, v = VList l /\ entries_of_vals l = Some es /\ Forall (fun e => 0 <= be_sat e) es /\ Forall in14 (filter (recog table) es).
+Definition cb_post (table : sigtable) (nsat : nat) (v v' : val) : Prop :=
+  exists l es mask, v = VList l /\ entries_of_vals l = Some es /\ (forall t, 0 <= t -> Z.testbit mask t = existsb (fun e => be_sat e =? t) es) /\
+    v' = VList (map val_of_entry (grouped table nsat 0 mask es)).
+Definition b1230_pre (v : val) : Prop := exists l es, v = VList l /\ es1230_of_vals l = Some es /\ NoDup (map fst es).
+Definition b1230_post (v v' : val) : Prop :=
+  exists l es sorted, v = VList l /\ es1230_of_vals l = Some es /\ Permutation sorted es /\
+    StronglySorted (fun x y => idx1230 x < idx1230 y) sorted /\ v' = VList (map norm1230 sorted).
+
+Section Api.
+  Variable b : builder.
+  Hypothesis Hreach : reach sig_table ssr_table_1059 ssr_table_1065 SAT_CAP_1059 SAT_CAP_1065 messages b.
+
+  Lemma to_fresh n v fr : snd (t_build b (MTyped n v)) = Ok fr ->
+    exists d', build_on sig_table ssr_table_1059 ssr_table_1065 SAT_CAP_1059 SAT_CAP_1065 messages fresh_data (MTyped n v) = Ok (fr, d').
+  Proof.
+    intros H. unfold t_build in H.
+    rewrite (history_independent sig_table ssr_table_1059 ssr_table_1065 SAT_CAP_1059 SAT_CAP_1065 messages b (MTyped n v) Hreach) in H.
+    unfold build_fresh, build in H. cbn [builder_new b_has_run b_data] in H. change (211 :: repeat 0 1028) with fresh_data in H.
+    destruct (build_on sig_table ssr_table_1059 ssr_table_1065 SAT_CAP_1059 SAT_CAP_1065 messages fresh_data (MTyped n v)) as [[fr0 d']|e|]; cbn [snd] in H; try discriminate.
+    inversion H; subst. exists d'. reflexivity.
+  Qed.
+
+  Theorem C16_frame_1059 : forall hdr x fr, snd (t_build b (MTyped 1059 (VStruct (hdr ++ [x])))) = Ok fr -> cb_pre ssr_table_1059 x ->
+    exists f hdr' x', frame_new fr = Ok f /\ fr_number f = Some 1059 /\ t_from_frame f = Ok (MTyped 1059 (VStruct (hdr' ++ [x']))) /\
+      Forall2 shape hdr hdr' /\ cb_post ssr_table_1059 64 x x'.
+  Proof.
+    intros hdr x fr H HQ. destruct (to_fresh _ _ _ H) as [d' Hb].
+    refine (tail_build_decodes sig_table ssr_table_1059 ssr_table_1065 SAT_CAP_1059 SAT_CAP_1065 messages (proj1 caps_nonneg16) (proj2 caps_nonneg16) layouts_fit16 numbers_fit16
+              FBias1059 (cb_pre ssr_table_1059) (cb_post ssr_table_1059 64) _ _ _ _ 1059 layout_1059 _ hdr x fr d' eq_refl eq_refl eq_refl eq_refl Hb HQ).
+    - apply special_frame. reflexivity.
+    - intros d o v d1 o1 Hbd Ho E [l [es [-> [He [Hn Hi]]]]].
+      destruct (C16_roundtrip_1059 d o l es d1 o1 Hbd Ho He Hn Hi E) as [mask [Hm D]].
+      eexists. split; [exact D|]. exists l, es, mask. repeat split; assumption.
+    - cbn [decode_frag]. apply cb_decode_ext2. lia.
+    - intros d off v off' _ _ E. cbn [decode_frag] in E. eapply cb_decode_mono; [|exact E]. lia.
+  Qed.
+
+  Theorem C16_frame_1065 : forall hdr x fr, snd (t_build b (MTyped 1065 (VStruct (hdr ++ [x])))) = Ok fr -> cb_pre ssr_table_1065 x ->
+    exists f hdr' x', frame_new fr = Ok f /\ fr_number f = Some 1065 /\ t_from_frame f = Ok (MTyped 1065 (VStruct (hdr' ++ [x']))) /\
+      Forall2 shape hdr hdr' /\ cb_post ssr_table_1065 32 x x'.
+  Proof.
+    intros hdr x fr H HQ. destruct (to_fresh _ _ _ H) as [d' Hb].
+    refine (tail_build_decodes sig_table ssr_table_1059 ssr_table_1065 SAT_CAP_1059 SAT_CAP_1065 messages (proj1 caps_nonneg16) (proj2 caps_nonneg16) layouts_fit16 numbers_fit16
+              FBias1065 (cb_pre ssr_table_1065) (cb_post ssr_table_1065 32) _ _ _ _ 1065 layout_1065 _ hdr x fr d' eq_refl eq_refl eq_refl eq_refl Hb HQ).
+    - apply special_frame. reflexivity.
+    - intros d o v d1 o1 Hbd Ho E [l [es [-> [He [Hn Hi]]]]].
+      destruct (C16_roundtrip_1065 d o l es d1 o1 Hbd Ho He Hn Hi E) as [mask [Hm D]].
+      eexists. split; [exact D|]. exists l, es, mask. repeat split; assumption.
+    - cbn [decode_frag]. apply cb_decode_ext2. lia.
+    - intros d off v off' _ _ E. cbn [decode_frag] in E. eapply cb_decode_mono; [|exact E]. lia.
+  Qed.
+
+  Theorem C16_frame_1230 : forall hdr x fr, snd (t_build b (MTyped 1230 (VStruct (hdr ++ [x])))) = Ok fr -> b1230_pre x ->
+    exists f hdr' x', frame_new fr = Ok f /\ fr_number f = Some 1230 /\ t_from_frame f = Ok (MTyped 1230 (VStruct (hdr' ++ [x']))) /\
+      Forall2 shape hdr hdr' /\ b1230_post x x'.
+  Proof.
+    intros hdr x fr H HQ. destruct (to_fresh _ _ _ H) as [d' Hb].
+    refine (tail_build_decodes sig_table ssr_table_1059 ssr_table_1065 SAT_CAP_1059 SAT_CAP_1065 messages (proj1 caps_nonneg16) (proj2 caps_nonneg16) layouts_fit16 numbers_fit16
+              FBias1230 b1230_pre b1230_post _ _ _ _ 1230 layout_1230 _ hdr x fr d' eq_refl eq_refl eq_refl eq_refl Hb HQ).
+    - apply special_frame. reflexivity.
+    - intros d o v d1 o1 Hbd Ho E [l [es [-> [He Hn]]]].
+      destruct (C16_roundtrip_1230 d o l es d1 o1 Hbd Ho He Hn E) as [sorted [Pm [Ss [_ D]]]].
+      eexists. split; [exact D|]. exists l, es, sorted. repeat split; assumption.
+    - cbn [decode_frag]. apply b1230_decode_ext2.
+    - intros d off v off' _ _ E. cbn [decode_frag] in E. eapply b1230_decode_mono; exact E.
+  Qed.
+End Api.
+Check C16_frame_1230 : forall b, reach sig_table ssr_table_1059 ssr_table_1065 SAT_CAP_1059 SAT_CAP_1065 messages b ->
+  forall hdr x fr, snd (t_build b (MTyped 1230 (VStruct (hdr ++ [x])))) = Ok fr -> b1230_pre x ->
+    exists f hdr' x', frame_new fr = Ok f /\ fr_number f = Some 1230 /\ t_from_frame f = Ok (MTyped 1230 (VStruct (hdr' ++ [x']))) /\
+      Forall2 shape hdr hdr' /\ b1230_post x x'.
+
 (** non-vacuity of the 1230 theorem: three entries out of order, one bias beyond the field *)
 Example C16_example_1230 :
   match t_encode_frag FBias1230 (repeat 0 10, 3) (VList [VStruct [VSig 2 80; VF32 1065353216]; VStruct [VSig 1 67; VF32 3221225472]; VStruct [VSig 2 67; VF32 1167867904]]) with
@@ -123,3 +210,6 @@ Print Assumptions C16_roundtrip_1059.
 Print Assumptions C16_roundtrip_1065.
 Print Assumptions C16_glo_order.
 Print Assumptions C16_roundtrip_1230.
+Print Assumptions C16_frame_1059.
+Print Assumptions C16_frame_1065.
+Print Assumptions C16_frame_1230.
